@@ -4,6 +4,7 @@
    of Model/Arrow.v, Model/Bounds.v, Model/Rtree.v.  Executable only. *)
 From Coq Require Import ZArith List Bool Arith.
 From SP Require Import Model.Num Model.Arrow Model.Bounds Model.Rtree.
+
 Import ListNotations.
 
 (* a coordinate that is not finite (NaN, +inf, -inf on the Python side) *)
@@ -73,22 +74,34 @@ Definition opt_pt_eqb (a b : option (num * num)) : bool :=
    rows alone.  Result: the inert flags of [full], its bounds rows, its
    total_bounds, (total_bounds full = total_bounds base,
                   the non-inert decoded elements of full are those of base). *)
+(* the guards of the C17 theorems (Spec/BoundsSpec.v states them as [nulls_empty]
+   and [even_outer]; repeated here because a Model file imports no Spec file):
+   a missing slot spans an empty range, every outer offset is even *)
+Definition la_guards (a : listarr) : bool :=
+  forallb (fun i => negb (isna_at (la_valid a) (la_off a) i)
+                    || Nat.eqb (getn (buffer_outer_offsets a) i)
+                               (getn (buffer_outer_offsets a) (S i)))
+          (seq 0 (la_len a))
+  && forallb Nat.even (buffer_outer_offsets a).
+
 Definition c17_la_case (c : listarr * listarr)
-  : option (list bool * list bbox * bbox * (bool * bool)) :=
+  : option (list bool * list bbox * bbox * (bool * bool * bool)) :=
   let '(full, base) := c in
   if wf_listarr full && wf_listarr base then
     Some (la_inert full, la_bounds full, la_total_bounds full,
           (bbox_eqb (la_total_bounds full) (la_total_bounds base),
-           list_eqb oflat_eqb (keep (la_inert full) (decode_flat full)) (decode_flat base)))
+           list_eqb oflat_eqb (keep (la_inert full) (decode_flat full)) (decode_flat base),
+           la_guards full && la_guards base))
   else None.
 
 Definition c17_fa_case (c : fixarr * fixarr)
-  : option (list bool * list bbox * bbox * (bool * bool)) :=
+  : option (list bool * list bbox * bbox * (bool * bool * bool)) :=
   let '(full, base) := c in
   if wf_fixarr full && wf_fixarr base then
     Some (fa_inert full, fa_bounds full, fa_total_bounds full,
           (bbox_eqb (fa_total_bounds full) (fa_total_bounds base),
-           list_eqb opt_pt_eqb (keep (fa_inert full) (fa_decode full)) (fa_decode base)))
+           list_eqb opt_pt_eqb (keep (fa_inert full) (fa_decode full)) (fa_decode base),
+           true))
   else None.
 
 (* a row of a bounds array that the index treats as "no box" *)
